@@ -66,10 +66,13 @@ Inductive top :=
 Record tspec := {
   ts_members : list nat;              (* registered and not unregistered, oldest first *)
   ts_shut : bool;                     (* some Shutdown has returned *)
-  ts_spans : list (bool * bool)       (* per started span: recording, ended *)
+  ts_spans : list (bool * bool);      (* per started span: recording, ended *)
+  ts_loose : bool                     (* the Shutdown that did the work had an already-cancelled context:
+                                         processors honour it and may finish (drain, export, shut their
+                                         exporter down) in the background after Shutdown returned *)
 }.
 Definition tspec_init (members : list nat) : tspec :=
-  {| ts_members := members; ts_shut := false; ts_spans := [] |}.
+  {| ts_members := members; ts_shut := false; ts_spans := []; ts_loose := false |}.
 
 Fixpoint set_ended (i : nat) (l : list (bool * bool)) : list (bool * bool) :=
   match l, i with
@@ -78,38 +81,39 @@ Fixpoint set_ended (i : nat) (l : list (bool * bool)) : list (bool * bool) :=
   | x :: t, S j => x :: set_ended j t
   end.
 
-(** [fnd = true] is the reading of the code as it is (known finding F-C15-3): a provider
-    Shutdown whose context is already cancelled marks the provider shut down but neither
-    shuts its processors down nor forgets them.  [fnd = false] is the property. *)
-Definition tsstep (fnd : bool) (s : tspec) (o : top) (ob : obs) : option tspec :=
-  let quiet := negb (ts_shut s) || negb (o_wrote ob) || (fnd && negb (Nat.eqb (length (ts_members s)) 0)) in
+Definition with_members (s : tspec) (m : list nat) : tspec :=
+  {| ts_members := m; ts_shut := ts_shut s; ts_spans := ts_spans s; ts_loose := ts_loose s |}.
+Definition with_spans (s : tspec) (sp : list (bool * bool)) : tspec :=
+  {| ts_members := ts_members s; ts_shut := ts_shut s; ts_spans := sp; ts_loose := ts_loose s |}.
+
+Definition tsstep (s : tspec) (o : top) (ob : obs) : option tspec :=
   (* "nothing more is exported" after Shutdown returned *)
+  let quiet := negb (ts_shut s) || negb (o_wrote ob) || ts_loose s in
   if negb quiet then None else
   match o with
   | TReg p =>
       if calls_eqb (o_calls ob) [] && err_eqb (o_err ob) ENil
-      then Some (if ts_shut s then s
-                 else {| ts_members := ts_members s ++ [p]; ts_shut := false; ts_spans := ts_spans s |})
+      then Some (if ts_shut s then s else with_members s (ts_members s ++ [p]))
       else None
   | TUnreg p =>
       if ts_shut s || negb (mem p (ts_members s))
       then (* after shutdown, or never registered: nothing happens *)
            if calls_eqb (o_calls ob) [] then Some s else None
       else if calls_eqb (o_calls ob) [(p, KShutdown)]
-           then Some {| ts_members := remove_last p (ts_members s); ts_shut := false; ts_spans := ts_spans s |}
+           then Some (with_members s (remove_last p (ts_members s)))
            else None
   | TStart fresh =>
       let rec := negb (ts_shut s && fresh) in      (* a tracer obtained after Shutdown is a no-op tracer *)
       if Bool.eqb (o_flag ob) rec &&
          calls_eqb (o_calls ob) (if rec then to_all KOnStart (ts_members s) else [])
-      then Some {| ts_members := ts_members s; ts_shut := ts_shut s; ts_spans := ts_spans s ++ [(rec, false)] |}
+      then Some (with_spans s (ts_spans s ++ [(rec, false)]))
       else None
   | TEnd i =>
       match nth_error (ts_spans s) i with
       | Some (true, false) =>
           (* exactly the processors registered and not unregistered now, in registration order *)
           if calls_eqb (o_calls ob) (to_all KOnEnd (ts_members s))
-          then Some {| ts_members := ts_members s; ts_shut := ts_shut s; ts_spans := set_ended i (ts_spans s) |}
+          then Some (with_spans s (set_ended i (ts_spans s)))
           else None
       | _ => if calls_eqb (o_calls ob) [] then Some s else None
       end
@@ -120,28 +124,22 @@ Definition tsstep (fnd : bool) (s : tspec) (o : top) (ob : obs) : option tspec :
   | TShutdown live =>
       if ts_shut s
       then if calls_eqb (o_calls ob) [] && err_eqb (o_err ob) ENil then Some s else None
-      else if live || Nat.eqb (length (ts_members s)) 0
-      then if calls_eqb (o_calls ob) (to_all KShutdown (ts_members s)) && err_eqb (o_err ob) ENil
-           then Some {| ts_members := []; ts_shut := true; ts_spans := ts_spans s |}
-           else None
-      else if fnd
-      then if calls_eqb (o_calls ob) [] && err_eqb (o_err ob) ECtx
-           then Some {| ts_members := ts_members s; ts_shut := true; ts_spans := ts_spans s |}
-           else None
-      else (* the property: every processor is shut down once, whatever the context *)
-           if calls_eqb (o_calls ob) (to_all KShutdown (ts_members s)) && err_in (o_err ob) [ENil; ECtx]
-           then Some {| ts_members := []; ts_shut := true; ts_spans := ts_spans s |}
+      else (* every registered processor is shut down, once, whatever the context; with a cancelled
+              context the processors may report it *)
+           if calls_eqb (o_calls ob) (to_all KShutdown (ts_members s)) &&
+              err_in (o_err ob) (if live || Nat.eqb (length (ts_members s)) 0 then [ENil] else [ENil; ECtx])
+           then Some {| ts_members := []; ts_shut := true; ts_spans := ts_spans s;
+                        ts_loose := negb live && negb (Nat.eqb (length (ts_members s)) 0) |}
            else None
   end.
 
-Fixpoint tspec_run (fnd : bool) (s : tspec) (l : list (top * obs)) : bool :=
+Fixpoint tspec_run (s : tspec) (l : list (top * obs)) : bool :=
   match l with
   | [] => true
-  | (o, ob) :: r => match tsstep fnd s o ob with Some s' => tspec_run fnd s' r | None => false end
+  | (o, ob) :: r => match tsstep s o ob with Some s' => tspec_run s' r | None => false end
   end.
 
-Definition tspec_ok (members : list nat) (l : list (top * obs)) : bool := tspec_run false (tspec_init members) l.
-Definition tspec_known (members : list nat) (l : list (top * obs)) : bool := tspec_run true (tspec_init members) l.
+Definition tspec_ok (members : list nat) (l : list (top * obs)) : bool := tspec_run (tspec_init members) l.
 
 (** "The processors currently registered" after a sequence of operations, as a function of the
     operations alone: registered and not unregistered, nothing once Shutdown has returned. *)
@@ -153,18 +151,6 @@ Fixpoint members_after (m : list nat) (shut : bool) (ops : list top) : list nat 
   | TShutdown _ :: r => members_after [] true r
   | _ :: r => members_after m shut r
   end.
-
-(** The trigger of F-C15-3: the first Shutdown has a cancelled context while processors are registered
-    (judged on the operations only). *)
-Fixpoint t_members_after (m : list nat) (ops : list top) : bool :=
-  match ops with
-  | [] => false
-  | TReg p :: r => t_members_after (m ++ [p]) r
-  | TUnreg p :: r => t_members_after (remove_last p m) r
-  | TShutdown live :: r => negb live && negb (Nat.eqb (length m) 0)
-  | _ :: r => t_members_after m r
-  end.
-Definition t_trigger (members : list nat) (ops : list top) : bool := t_members_after members ops.
 
 (** * Exporters and pipelines of the metric and log providers *)
 Inductive xk := XNil | XStd | XMem.   (* nil exporter / stock stdout exporter writing to a buffer / in-memory *)
